@@ -3,6 +3,7 @@
 package store
 
 import (
+	"verifharness/world"
 	"os"
 	"path/filepath"
 	"context"
@@ -136,6 +137,13 @@ func newBackend(ctx context.Context, name string) (nodeenrollment.Storage, func(
 			return nil, nil, err
 		}
 		return s, func() { _ = s.Cleanup(ctx) }, nil
+	case "file2":
+		// two handles (two processes) on one directory; the driver picks the handle per operation
+		sw, cleanup, err := world.NewSwitchStorage(2)
+		if err != nil {
+			return nil, nil, err
+		}
+		return sw, cleanup, nil
 	case "filemeta":
 		// the file back end in a base directory whose NAME contains glob metacharacters, next to a sibling directory
 		// that such a pattern would also match
@@ -248,6 +256,53 @@ func exec(ctx context.Context, st nodeenrollment.Storage, op map[string]any) (re
 	return classify(err), val, lst, errText
 }
 
+// burst: rounds of a fresh in-memory storage on which n goroutines, released together, each perform the FIRST store of
+// a type with their own id; afterwards every id must load and be listed.
+func burst(ctx context.Context, op map[string]any) (string, string) {
+	n, rounds := 8, 400
+	if v, ok := op["rounds"].(float64); ok {
+		rounds = int(v)
+	}
+	t := fmt.Sprint(op["t"])
+	for r := 0; r < rounds; r++ {
+		st, err := inmem.New(ctx)
+		if err != nil {
+			return "error", err.Error()
+		}
+		start := make(chan struct{})
+		var wg sync.WaitGroup
+		errs := make([]error, n)
+		for i := 0; i < n; i++ {
+			wg.Add(1)
+			go func(i int) {
+				defer wg.Done()
+				<-start
+				errs[i] = st.Store(ctx, msgFor(t, fmt.Sprintf("b%d", i), "v1"))
+			}(i)
+		}
+		close(start)
+		wg.Wait()
+		ids, lerr := st.List(ctx, msgFor(t, "", "")) // not every type can be listed
+		for i := 0; i < n; i++ {
+			if errs[i] != nil {
+				continue
+			}
+			id := fmt.Sprintf("b%d", i)
+			if err := st.Load(ctx, msgFor(t, id, "")); err != nil {
+				return "lost", fmt.Sprintf("round %d: store of %s acknowledged, load: %v", r, id, err)
+			}
+			found := false
+			for _, x := range ids {
+				found = found || x == id
+			}
+			if !found && lerr == nil {
+				return "lost", fmt.Sprintf("round %d: store of %s acknowledged, not listed", r, id)
+			}
+		}
+	}
+	return "ok", ""
+}
+
 func Run(bh Behaviour, seed int64) ([]Line, error) {
 	ctx := context.Background()
 	backend := fmt.Sprint(bh.Cfg["backend"])
@@ -258,10 +313,22 @@ func Run(bh Behaviour, seed int64) ([]Line, error) {
 	defer cleanup()
 	var lines []Line
 	if len(bh.Clients) == 0 {
+		shared, _ := st.(*world.SwitchStorage)
 		for i, op := range bh.Ops {
 			ln := Line{Tr: bh.Id, I: i + 1, Cfg: bh.Cfg, Ev: "Call", Op: op, Ids: []string{}}
 			ln.Pre = project(ctx, st)
-			ln.Res, ln.Val, ln.Ids, ln.Err = exec(ctx, st, op)
+			if shared != nil {
+				shared.Cur = int(world.Uint64Seed(seed, fmt.Sprintf("%s/%d", bh.Id, i)) & 1) // which handle serves the call must not matter
+			}
+			if fmt.Sprint(op["op"]) == "Burst" {
+				ln.Res, ln.Err = burst(ctx, op)
+				ln.Val = "absent"
+			} else {
+				ln.Res, ln.Val, ln.Ids, ln.Err = exec(ctx, st, op)
+			}
+			if shared != nil {
+				shared.Cur = -1
+			}
 			ln.Post = project(ctx, st)
 			lines = append(lines, ln)
 		}
